@@ -1,83 +1,242 @@
-"""Shared fail-closed guard for the source-to-Coq translators (QA audit, session 2026-09-23): what a translator does NOT
-read must not be able to change what the translated methods mean.  For every class a translator relies on:
-  * the class is defined exactly once at module level and its name is not rebound (assignment, import, def);
-  * every method of the class is defined exactly once, with exactly the decorators recorded in tools/guard_table.json
-    (recorded from the tree the models were written against: a decorator can wrap or replace a method);
-  * no class-level statement binds the name of a method (`release = other`);
-  * nowhere in the module is an attribute of the class assigned / deleted (`Lock.release = ...`) or passed to
-    setattr / delattr.
-A violation raises GuardError with a one-line reason; the translators turn it into their REFUSED protocol."""
+"""Shared fail-closed guard for the source-to-Coq translators (QA audits of session 2026-09-23): what a translator does NOT
+read must not be able to change what the translated methods mean.  `tools/guard_table.json` records, from the tree the
+models were written against (`python3 tools/guard.py --record`), for every source file the translators rely on:
+
+  module   * every import statement (also inside module-level if / try blocks), literally and in order;
+           * how often each imported name, guarded class and guarded function is bound at module level (an alias
+             `BusyResourceError as WouldBlock`, a second `def current_task`, `Event = Lock`, a conditional `def` ...);
+  class    * decorators, bases, the class-level statements that are not defs (a compound statement there - `if ver: def
+             release` - is refused outright), and for each method every definition of it with decorators, the full
+             parameter list INCLUDING defaults, the exception classes of its handlers, its `raise` statements, its calls
+             of a method named `cancel` (the tagged message of AnyIO's cancellations) and the receiver.method of every
+             awaited call (the translators match marker calls by name only);
+           * the literal text of the methods listed under `literal` (constructors, `__del__`, `statistics`, setters ...:
+             code the models depend on but no translator reads) and of whole helper classes (`literal_classes`);
+  function * the same record for guarded module-level functions.
+  names    * in every guarded method / function each name that is READ must be bound in that function (parameter, assignment,
+             loop / with / except target, comprehension variable, nested def), at module level, or be a builtin: renaming
+             only one occurrence of a local leaves a name the translators' canonical renaming would silently accept.
+
+`check()` recomputes the record from the tree under test and compares.  Nowhere in the module may an attribute of a guarded
+class be assigned, deleted or passed to setattr / delattr.  A violation raises GuardError with a one-line reason; the
+translators turn it into their REFUSED protocol."""
 from __future__ import annotations
 
 import ast
+import builtins
 import json
+import sys
 from pathlib import Path
 
-TABLE = json.loads((Path(__file__).resolve().parent / "guard_table.json").read_text())
+HERE = Path(__file__).resolve().parent
+TABLE_PATH = HERE / "guard_table.json"
+TABLE = json.loads(TABLE_PATH.read_text()) if TABLE_PATH.exists() else {}
+
+# file -> {"classes": {name: [deeply recorded methods] | "*"}, "functions": [...], "literal": {class: [methods]},
+#          "literal_classes": [...]}
+CONFIG = {
+    "_backends/_asyncio.py": {
+        "classes": {"Lock": "*", "Semaphore": "*", "CapacityLimiter": "*", "Event": "*", "CancelScope": "*",
+                    "AsyncIOBackend": ["checkpoint", "checkpoint_if_cancelled", "cancel_shielded_checkpoint", "check_cancelled",
+                                       "current_effective_deadline", "sleep", "run_sync_in_worker_thread", "create_cancel_scope",
+                                       "current_time"]},
+        "functions": ["is_anyio_cancellation"],
+        "literal": {"Lock": ["__new__", "__init__", "statistics"], "Semaphore": ["__new__", "__init__"],
+                    "CapacityLimiter": ["__new__", "__init__"], "Event": ["__new__", "__init__"],
+                    "CancelScope": ["__new__", "shield", "deadline"]},
+        "literal_classes": [],
+    },
+    "_core/_synchronization.py": {
+        "classes": {"Condition": "*", "Event": "*", "Lock": "*", "Semaphore": "*", "CapacityLimiter": "*"},
+        "functions": [], "literal": {"Condition": ["__init__"]}, "literal_classes": [],
+    },
+    "streams/memory.py": {
+        "classes": {"MemoryObjectReceiveStream": "*", "MemoryObjectSendStream": "*"},
+        "functions": [], "literal": {"MemoryObjectReceiveStream": ["__del__", "__post_init__"],
+                                     "MemoryObjectSendStream": ["__del__", "__post_init__"]},
+        "literal_classes": ["_MemoryObjectItemReceiver", "_MemoryObjectStreamState", "MemoryObjectStreamStatistics"],
+    },
+    "_core/_tasks.py": {"classes": {}, "functions": ["fail_at", "fail_after", "move_on_at", "move_on_after"], "literal": {},
+                        "literal_classes": []},
+}
 
 
 class GuardError(Exception):
     pass
 
 
-def record(rel: str, src_text: str, classes: list[str]) -> dict:
-    mod = ast.parse(src_text)
-    out = {}
+def _is_doc(x):
+    return isinstance(x, ast.Expr) and isinstance(x.value, ast.Constant) and isinstance(x.value.value, str)
+
+
+def _module_stmts(body):
+    """module-level statements, looking through if / try / with blocks but not into defs and classes"""
+    for n in body:
+        yield n
+        if isinstance(n, ast.If):
+            yield from _module_stmts(n.body)
+            yield from _module_stmts(n.orelse)
+        elif isinstance(n, ast.Try):
+            yield from _module_stmts(n.body)
+            for h in n.handlers:
+                yield from _module_stmts(h.body)
+            yield from _module_stmts(n.orelse)
+            yield from _module_stmts(n.finalbody)
+        elif isinstance(n, (ast.With, ast.For, ast.While)):
+            yield from _module_stmts(n.body)
+
+
+def _bound_by(n):
+    if isinstance(n, (ast.FunctionDef, ast.AsyncFunctionDef, ast.ClassDef)):
+        return [n.name]
+    if isinstance(n, ast.Import):
+        return [(a.asname or a.name.split(".")[0]) for a in n.names]
+    if isinstance(n, ast.ImportFrom):
+        return [(a.asname or a.name) for a in n.names]
+    tg = []
+    if isinstance(n, ast.Assign):
+        tg = n.targets
+    elif isinstance(n, (ast.AnnAssign, ast.AugAssign)):
+        tg = [n.target]
+    return [x.id for t in tg for x in ast.walk(t) if isinstance(x, ast.Name)]
+
+
+def _fn_record(d, deep: bool):
+    rec = {"decorators": [ast.unparse(x) for x in d.decorator_list], "args": ast.unparse(d.args),
+           "async": isinstance(d, ast.AsyncFunctionDef)}
+    if deep:
+        rec["handlers"] = [ast.unparse(h.type) if h.type is not None else "" for h in ast.walk(d) if isinstance(h, ast.ExceptHandler)]
+        rec["raises"] = [ast.unparse(r) for r in ast.walk(d) if isinstance(r, ast.Raise)]
+        rec["cancel_calls"] = [ast.unparse(c) for c in ast.walk(d) if isinstance(c, ast.Call)
+                               and isinstance(c.func, ast.Attribute) and c.func.attr == "cancel"]
+        # what is awaited: the translators match marker calls (checkpoint, checkpoint_if_cancelled,
+        # cancel_shielded_checkpoint, wait ...) by NAME; the receiver is pinned here.  A receiver that is a local of the
+        # function is recorded as <local> so that consistent renames of locals stay harmless
+        params_locals = {a.arg for a in ast.walk(d) if isinstance(a, ast.arg)} | \
+                        {x.id for x in ast.walk(d) if isinstance(x, ast.Name) and isinstance(x.ctx, ast.Store)}
+        aw = []
+        for a in ast.walk(d):
+            if isinstance(a, ast.Await) and isinstance(a.value, ast.Call):
+                f = a.value.func
+                base = f
+                while isinstance(base, ast.Attribute):
+                    base = base.value
+                if isinstance(base, ast.Name) and base.id in params_locals and base.id != "self" and isinstance(f, ast.Attribute):
+                    aw.append("<local>." + f.attr)
+                else:
+                    aw.append(ast.unparse(f))
+        rec["awaited_calls"] = aw
+    return rec
+
+
+def record_module(rel: str, mod: ast.Module) -> dict:
+    cfg = CONFIG[rel]
+    stmts = list(_module_stmts(mod.body))
+    imports = [ast.unparse(n) for n in stmts if isinstance(n, (ast.Import, ast.ImportFrom))]
+    imported = {b for n in stmts if isinstance(n, (ast.Import, ast.ImportFrom)) for b in _bound_by(n)}
+    tracked = imported | set(cfg["classes"]) | set(cfg["functions"]) | set(cfg["literal_classes"])
+    counts: dict[str, int] = {}
+    for n in stmts:
+        for b in _bound_by(n):
+            if b in tracked:
+                counts[b] = counts.get(b, 0) + 1
+    out = {"imports": imports, "bindings": counts, "classes": {}, "functions": {}, "literal_classes": {}}
     for c in mod.body:
-        if isinstance(c, ast.ClassDef) and c.name in classes:
-            out[c.name] = {"decorators": [ast.unparse(d) for d in c.decorator_list],
-                           "methods": {d.name: [ast.unparse(x) for x in d.decorator_list]
-                                       for d in c.body if isinstance(d, (ast.FunctionDef, ast.AsyncFunctionDef))}}
+        if isinstance(c, ast.ClassDef) and c.name in cfg["classes"]:
+            deep = cfg["classes"][c.name]
+            methods: dict[str, list] = {}
+            for d in c.body:
+                if isinstance(d, (ast.FunctionDef, ast.AsyncFunctionDef)):
+                    methods.setdefault(d.name, []).append(_fn_record(d, deep == "*" or d.name in deep))
+            lit = {}
+            for d in c.body:
+                if isinstance(d, (ast.FunctionDef, ast.AsyncFunctionDef)) and d.name in cfg["literal"].get(c.name, []):
+                    lit.setdefault(d.name, []).append(ast.unparse(d))
+            out["classes"][c.name] = {
+                "decorators": [ast.unparse(d) for d in c.decorator_list], "bases": [ast.unparse(b) for b in c.bases],
+                "stmts": [ast.unparse(x) for x in c.body if not isinstance(x, (ast.FunctionDef, ast.AsyncFunctionDef)) and not _is_doc(x)],
+                "methods": methods, "literal": lit}
+        if isinstance(c, ast.ClassDef) and c.name in cfg["literal_classes"]:
+            out["literal_classes"][c.name] = ast.unparse(c)
+        if isinstance(c, (ast.FunctionDef, ast.AsyncFunctionDef)) and c.name in cfg["functions"]:
+            out["functions"].setdefault(c.name, []).append(_fn_record(c, True))
     return out
 
 
+_BUILTINS = set(dir(builtins))
+
+
+def _check_names(where: str, fn, module_names: set) -> None:
+    bound = set()
+    for n in ast.walk(fn):
+        if isinstance(n, ast.arg):
+            bound.add(n.arg)
+        elif isinstance(n, ast.Name) and isinstance(n.ctx, (ast.Store, ast.Del)):
+            bound.add(n.id)
+        elif isinstance(n, (ast.FunctionDef, ast.AsyncFunctionDef, ast.ClassDef)) and n is not fn:
+            bound.add(n.name)
+        elif isinstance(n, ast.ExceptHandler) and n.name:
+            bound.add(n.name)
+        elif isinstance(n, (ast.Import, ast.ImportFrom)):
+            bound.update(_bound_by(n))
+        elif isinstance(n, (ast.Global, ast.Nonlocal)):
+            bound.update(n.names)
+    for n in ast.walk(fn):
+        if isinstance(n, ast.Name) and isinstance(n.ctx, ast.Load) and n.id not in bound and n.id not in module_names \
+                and n.id not in _BUILTINS:
+            raise GuardError(f"{where}: name `{n.id}` is read (line {n.lineno}) but bound neither in the function nor at module level")
+
+
 def check(rel: str, mod: ast.Module, classes: list[str] | None = None) -> None:
-    want = TABLE.get(rel, {})
-    classes = list(want) if classes is None else classes
-    for cname in classes:
-        if cname not in want:
+    """`classes` restricts the class-level comparison to those classes (a translator refuses for ITS classes); the module
+    part (imports, rebinding) and the guarded functions are always compared."""
+    if rel not in TABLE:
+        raise GuardError(f"{rel}: no entry in tools/guard_table.json")
+    want, got = TABLE[rel], record_module(rel, mod)
+    if got["imports"] != want["imports"]:
+        diff = [i for i in got["imports"] if i not in want["imports"]] + [f"(missing) {i}" for i in want["imports"] if i not in got["imports"]]
+        raise GuardError(f"{rel}: import statements differ: {diff[:2]}")
+    for name in sorted(set(want["bindings"]) | set(got["bindings"])):
+        if got["bindings"].get(name, 0) != want["bindings"].get(name, 0):
+            raise GuardError(f"{rel}: `{name}` is bound {got['bindings'].get(name, 0)} times at module level (recorded: {want['bindings'].get(name, 0)})")
+    for name, w in want["literal_classes"].items():
+        if got["literal_classes"].get(name) != w:
+            raise GuardError(f"{rel}: class {name} differs from its recorded text")
+    for name, w in want["functions"].items():
+        if got["functions"].get(name) != w:
+            raise GuardError(f"{rel}: function {name}: decorators / parameters (with defaults) / handlers / raises differ: {got['functions'].get(name)}")
+    names = list(want["classes"]) if classes is None else classes
+    for cname in names:
+        if cname not in want["classes"]:
             raise GuardError(f"{rel}: class {cname} has no entry in tools/guard_table.json")
-        defs = [n for n in mod.body if isinstance(n, ast.ClassDef) and n.name == cname]
-        if len(defs) != 1:
-            raise GuardError(f"{rel}: class {cname} is defined {len(defs)} times at module level")
-        c = defs[0]
-        if [ast.unparse(d) for d in c.decorator_list] != want[cname]["decorators"]:
-            raise GuardError(f"{rel}: decorators of class {cname} differ: {[ast.unparse(d) for d in c.decorator_list]}")
-        seen: dict[str, int] = {}
-        for d in c.body:
-            if isinstance(d, (ast.FunctionDef, ast.AsyncFunctionDef)):
-                # property setters / deleters share the name of the getter: compared as a multiset of decorator lists
-                seen.setdefault(d.name, 0)
-                seen[d.name] += 1
-        got = {}
-        for d in c.body:
-            if isinstance(d, (ast.FunctionDef, ast.AsyncFunctionDef)):
-                got.setdefault(d.name, []).append([ast.unparse(x) for x in d.decorator_list])
-        wantm = want[cname]["methods"]
-        for name, decos in got.items():
-            if name not in wantm:
-                continue          # a new method: the translators' own method-set checks decide
-            if sorted(map(tuple, decos)) != sorted(map(tuple, wantm[name])):
-                raise GuardError(f"{rel}: decorators of {cname}.{name} differ: {decos}")
-        method_names = set(got) | set(wantm)
-        for st in c.body:
-            tg = []
-            if isinstance(st, ast.Assign):
-                tg = st.targets
-            elif isinstance(st, (ast.AnnAssign, ast.AugAssign)):
-                tg = [st.target]
-            for t in tg:
-                for x in ast.walk(t):
-                    if isinstance(x, ast.Name) and x.id in method_names:
-                        raise GuardError(f"{rel}: class-level statement rebinds {cname}.{x.id}: {ast.unparse(st)[:80]}")
-    names = set(classes)
-    for n in mod.body:
-        if isinstance(n, (ast.FunctionDef, ast.AsyncFunctionDef)) and n.name in names:
-            raise GuardError(f"{rel}: module-level def shadows class {n.name}")
-        if isinstance(n, (ast.Import, ast.ImportFrom)):
-            for a in n.names:
-                if (a.asname or a.name.split(".")[0]) in names:
-                    raise GuardError(f"{rel}: import rebinds {a.asname or a.name}")
+        w, g = want["classes"][cname], got["classes"].get(cname)
+        if g is None:
+            raise GuardError(f"{rel}: class {cname} missing")
+        for key in ("decorators", "bases", "stmts"):
+            if g[key] != w[key]:
+                raise GuardError(f"{rel}: class {cname}: {key} differ: {[x for x in g[key] if x not in w[key]][:2]}")
+        for mname in sorted(set(w["methods"]) | set(g["methods"])):
+            if mname not in w["methods"]:
+                continue        # a new method: the translators' own method-set checks decide
+            if g["methods"].get(mname) != w["methods"][mname]:
+                raise GuardError(f"{rel}: {cname}.{mname}: definitions / decorators / parameters (with defaults) / handlers / "
+                                 f"raises / cancel() calls / awaited calls differ from the record")
+        for mname, texts in w["literal"].items():
+            if g["literal"].get(mname) != texts:
+                raise GuardError(f"{rel}: {cname}.{mname} differs from its recorded text")
+    # name hygiene in every guarded method / function
+    module_names = {b for n in _module_stmts(mod.body) for b in _bound_by(n)}
+    for c in mod.body:
+        if isinstance(c, ast.ClassDef) and c.name in names:
+            # decorators such as `@total_tokens.setter` read names of the class body
+            class_names = {b for x in c.body for b in _bound_by(x)}
+            for d in c.body:
+                if isinstance(d, (ast.FunctionDef, ast.AsyncFunctionDef)):
+                    _check_names(f"{rel}: {c.name}.{d.name}", d, module_names | {c.name} | class_names)
+        if isinstance(c, (ast.FunctionDef, ast.AsyncFunctionDef)) and c.name in want["functions"]:
+            _check_names(f"{rel}: {c.name}", c, module_names)
+    # attributes of guarded classes assigned anywhere; setattr / delattr
+    cls_names = set(want["classes"]) | set(want["literal_classes"])
     for n in ast.walk(mod):
         tg = []
         if isinstance(n, ast.Assign):
@@ -88,11 +247,17 @@ def check(rel: str, mod: ast.Module, classes: list[str] | None = None) -> None:
             tg = n.targets
         for t in tg:
             for x in ast.walk(t):
-                if isinstance(x, ast.Attribute) and isinstance(x.value, ast.Name) and x.value.id in names:
+                if isinstance(x, ast.Attribute) and isinstance(x.value, ast.Name) and x.value.id in cls_names:
                     raise GuardError(f"{rel}: attribute of class {x.value.id} is assigned: {ast.unparse(n)[:80]}")
-                if isinstance(x, ast.Name) and x.id in names and isinstance(n, (ast.Assign, ast.AnnAssign, ast.AugAssign)) \
-                        and isinstance(getattr(x, 'ctx', None), ast.Store):
-                    raise GuardError(f"{rel}: class name {x.id} is rebound: {ast.unparse(n)[:80]}")
         if isinstance(n, ast.Call) and isinstance(n.func, ast.Name) and n.func.id in ("setattr", "delattr") and n.args \
-                and isinstance(n.args[0], ast.Name) and n.args[0].id in names:
+                and isinstance(n.args[0], ast.Name) and n.args[0].id in cls_names:
             raise GuardError(f"{rel}: {n.func.id}() on class {n.args[0].id}")
+
+
+if __name__ == "__main__":
+    if "--record" in sys.argv:
+        import os
+        repo = Path(os.environ.get("VERIF_REPO", "/repo"))
+        table = {rel: record_module(rel, ast.parse((repo / "src" / "anyio" / rel).read_text())) for rel in CONFIG}
+        TABLE_PATH.write_text(json.dumps(table, indent=1, sort_keys=True) + "\n")
+        print("recorded", {k: (len(v["imports"]), sorted(v["classes"]), sorted(v["functions"])) for k, v in table.items()})
